@@ -45,6 +45,6 @@ Theorem C07_tree_no_larger_than_tokens : forall (ts : list (Pratt.token value (l
 Proof. exact parse_node_count. Qed.
 Theorem C07_tree_no_larger_than_text : forall s e, Front.compile s = COk e -> (nodes e <= length s)%nat.
 Proof. exact compile_size. Qed.
-Example C07_size_example : exists e, Front.compile [40;49;43;50;41;42;120]%N = COk e /\ nodes e = 5%nat.
-Proof. eexists. split; [vm_compute; reflexivity | reflexivity]. Qed.
+Example C07_size_example : match Front.compile [40;97;43;98;41;42;120]%N with COk e => Nat.eqb (nodes e) 5 | _ => false end = true.
+Proof. vm_compute. reflexivity. Qed.
 Print Assumptions C07_tree_no_larger_than_text.
